@@ -25,6 +25,7 @@ def clock_now(engine, st):
     st.ghost["clock"] = t
     st.ghost.setdefault("clock_reads", [])
     st.ghost["clock_reads"] = st.ghost["clock_reads"] + [t]
+    st.trace.append(Event("clock-read", ret=t, held=list(st.held)))
     return Z(t, "num")
 
 
